@@ -285,11 +285,41 @@ def two_stream_scenario(args):
     bad = []
     try:
         script = rng.choice(["aa", "d", "uaa", "ae"])
-        s.op(f"net seed {seed}"); s.op("net latency 1 5")
+        overlap = rng.random() < 0.4
+        s.op(f"net seed {seed}"); s.op("net latency 1 5" if not overlap else f"net latency {rng.choice([100, 150])} {rng.choice([200, 300])}")
         s.op(f"server 127.0.0.60:3478 turn {script} user pass")
         s.op("new A ctrl=1 compat=0 opts=0 rc=3 rto=500 addrs=127.0.0.1")
         s.op("stream A 1"); s.op("stream A 1"); s.op("attach A 1"); s.op("attach A 2")
         first, second = rng.choice([(1, 2), (2, 1)])
+        if overlap:
+            # the second (host-only) stream is asked to gather while the first one's Allocate is still in flight on a slow path:
+            # the second run completes at once, the first run's completion must wait for its own server
+            s.op(f"relay A {first} 1 127.0.0.60:3478 user pass 0")
+            s.op(f"gather A {first}")
+            s.op(f"run {rng.choice([30, 100, 250])}")
+            s.op(f"gather A {second}")
+            s.op("run 9000")
+            ev = s.events()
+            for sid in (first, second):
+                n = len([e for e in ev if re.search(rf" A gathering-done {sid}$", e)])
+                if n != 1:
+                    bad.append(("never-done" if n == 0 else "done-twice", f"stream {sid}: one gathering run, completion announced {n} times"))
+            idx = [i for i, e in enumerate(ev) if re.search(rf" A gathering-done {first}$", e)]
+            late = [e for e in ev[idx[0] + 1:] if re.search(rf" A new-candidate {first} ", e)] if idx else []
+            if late:
+                bad.append(("done-early", f"stream {first}: gathering-done was announced ({ev[idx[0]][:20]}..) while its TURN allocation was still in flight — "
+                                          f"stream {second}'s run completing announced it — and a candidate of that run arrived afterwards: {late[0][:90]}"))
+            txs = [int(m.group(1)) for m in (re.match(r"t=(\d+) tx A \S+->127\.0\.0\.60:3478 ", e) for e in ev) if m]
+            rxs = [int(m.group(1)) for m in (re.match(r"t=(\d+) rx A 127\.0\.0\.60:3478->", e) for e in ev) if m]
+            if idx and txs and not late:
+                td = int(re.match(r"t=(\d+)", ev[idx[0]]).group(1))
+                # nothing may be outstanding at completion: the last request was answered, or ran through its schedule (4T = 2000 ms)
+                last_tx_before = max([t for t in txs if t <= td], default=None)
+                if last_tx_before is not None and not any(last_tx_before <= t <= td for t in rxs) and td < min(txs) + 2000 - 25:
+                    bad.append(("done-early", f"stream {first}: gathering-done at t={td} while the Allocate request sent at t={last_tx_before} was neither "
+                                              f"answered nor timed out (first transmission at t={min(txs)}, schedule 2000 ms)"))
+            return dict(seed=seed, bad=bad, known=[], script=s.script, servers=[("turn", "127.0.0.60:3478", script)], ncands=2,
+                        done_at=None, endless=None, glines=[])
         if rng.random() < 0.8:
             s.op(f"relay A {second} 1 127.0.0.60:3478 user pass 0")
         if rng.random() < 0.4:
@@ -508,7 +538,7 @@ def run(tier, seed):
                                       [(exe, seed * 100000 + i, tier) for i in range(n)])
             res += simlib.run_parallel(edge_scenario, [(exe, seed * 100000 + i, tier) for i in range(8 if tier == "quick" else 60)])
             res += simlib.run_parallel(late_relay_scenario, [(exe, seed * 100000 + i, tier) for i in range(10 if tier == "quick" else 80)])
-            res += simlib.run_parallel(two_stream_scenario, [(exe, seed * 100000 + i, tier) for i in range(10 if tier == "quick" else 80)])
+            res += simlib.run_parallel(two_stream_scenario, [(exe, seed * 100000 + i, tier) for i in range(20 if tier == "quick" else 160)])
             res += simlib.run_parallel(redirect_scenario, [(exe, seed * 100000 + i, tier) for i in range(8 if tier == "quick" else 60)])
             kinds, behs = {}, {}
             k3 = None
